@@ -162,6 +162,17 @@ def _ulps(a: float, b: float, n: float) -> bool:
     return abs(a - b) <= n * float(np.spacing(max(abs(a), abs(b))))
 
 
+def _long_decimal(d) -> bool:
+    """True when step or low is not a short decimal (its shortest repr needs more than 15 significant digits): then the
+    exact decimal grid point k*step+low is not a double, which is the mechanism of finding F16."""
+    from decimal import Decimal
+
+    st = getattr(d, "step", None)
+    if st is None:
+        return False
+    return any(len(Decimal(repr(float(x))).as_tuple().digits) > 15 for x in (st, d.low))
+
+
 def check_json(ctx: Ctx, d, fam: str, other) -> None:
     from optuna import distributions as D
 
@@ -179,7 +190,7 @@ def check_json(ctx: Ctx, d, fam: str, other) -> None:
         readj = bool(stepped and type(d2) is type(d) and d2.low == d.low and d2.step == d.step and d2.log == d.log
                      and d2.high < d.high)
         ctx.violation({"kind": "json_roundtrip_not_identity", "cls": type(d).__name__, "stepped_float": stepped,
-                       "only_high_readjusted_downwards": readj},
+                       "only_high_readjusted_downwards": readj, "step_or_low_needs_more_than_15_digits": _long_decimal(d)},
                       f"json round trip changed {d!r} into {d2!r}", case, {"json": j})
         return d2
     j2 = D.distribution_to_json(d2)
@@ -201,7 +212,7 @@ def check_json(ctx: Ctx, d, fam: str, other) -> None:
             stepped = isinstance(d, D.FloatDistribution) and d.step is not None
             readj = bool(stepped and d3.low == d.low and d3.step == d.step and d3.high < d.high)
             ctx.violation({"kind": "json_roundtrip_not_identity", "cls": type(d).__name__, "stepped_float": stepped,
-                           "only_high_readjusted_downwards": readj, "form": "abbreviated"},
+                           "only_high_readjusted_downwards": readj, "form": "abbreviated", "step_or_low_needs_more_than_15_digits": _long_decimal(d)},
                           f"abbreviated JSON of {d!r} parses to {d3!r}", case)
     # single() and compatibility answers before/after
     if d.single() != d2.single():
